@@ -173,7 +173,7 @@ theorem chain_leaves_ne_nil (p : Params K) (pv : p.Valid) :
     | leaf es =>
       simp only [chain, List.mem_singleton] at hl
       subst hl
-      simp only [Shape, Params.leafMin] at hs
+      simp only [Shape, Params.leafMin, Gen.leafSlotmin] at hs
       intro he; subst he; simp at hs; omega
     | inner lv ks kids => simp [Shape] at hs
   | succ h ih =>
